@@ -347,7 +347,8 @@ pub fn parse_proj(definition: &str) -> Result<String, Error> {
                 .collect();
 
             if step_is_inverted != pipeline_is_inverted {
-                elements.insert(1, "inv".to_string());
+                // A malformed step consisting of 'inv' only, is empty at this point
+                elements.insert(elements.len().min(1), "inv".to_string());
             }
 
             geodesy_step = elements.join(" ").trim().to_string();
